@@ -1,6 +1,7 @@
 CONSTANTS
   AsIs_D10 = TRUE
+  Mut_NilFailedEvent = FALSE
 SPECIFICATION Spec
-INVARIANTS TypeOK NoPanic Outcome Reported
+INVARIANTS TypeOK NoPanic Outcome Reported AllPrintable
 PROPERTY Terminates
 CHECK_DEADLOCK FALSE
